@@ -748,6 +748,9 @@ def run(ctx) -> None:
     ctx.rule("C08.R10-clear-then-fill-cannot-fail-in-between", "a mutator that empties a stored object and refills it from a caller's argument "
              "(X.clear(); X.update(arg)) either invalidates before the clear or has converted the argument (dict(..), deep_copy(..)) before "
              "it: if the refill raises, the description is already changed and the invalidation that follows it is never reached")
+    ctx.rule("C08.R11-new-platform-has-every-scope", "a mutator that creates the variables of a platform (variables[platform] = {..}) leaves it with "
+             "both scopes the readers require ('global' and 'stages'): otherwise every resolved query on the new platform raises "
+             "FlowIRInconsistency while the same description answers when it is loaded from scratch")
     ctx.rule("C08.R6-readset", "regions read by get_component_configuration are exactly the regions treated as relevant")
     ctx.assume("aliases stored outside the analysed function (object attributes, containers passed to other "
                "modules) are not tracked; such escapes are listed under coverage.information")
@@ -758,6 +761,32 @@ def run(ctx) -> None:
 
     an = Analysis(ctx)
     mod = an.mod
+
+    # ---- R11: scopes of a newly created platform ---------------------------------------------
+    n11 = 0
+    for mname, f in an.methods.items():
+        creates = [a for a in ast.walk(f) if isinstance(a, ast.Assign) and len(a.targets) == 1 and isinstance(a.targets[0], ast.Subscript)
+                   and isinstance(a.targets[0].slice, ast.Name) and a.targets[0].slice.id == "platform" and "FieldVariables" in source.src(a.targets[0].value)
+                   and isinstance(a.value, ast.Dict)]
+        if not creates:
+            continue
+        n11 += 1
+        ctx.analysed(f)
+        established = set()
+        for x in ast.walk(f):
+            if isinstance(x, ast.Dict):
+                established |= {(dotted(k) or "").split(".")[-1] for k in x.keys if k is not None}
+            if isinstance(x, ast.Assign):
+                for t in x.targets:
+                    if isinstance(t, ast.Subscript) and "FieldVariables" in source.src(t):
+                        established.add((dotted(t.slice) or "").split(".")[-1])
+        missing = [k for k in ("LabelGlobal", "LabelStages") if k not in established]
+        ctx.ob("C08.R11-new-platform-has-every-scope", creates[0], not missing,
+               "%s creates the variables of a platform with the global and the stages scope" % mname if not missing else
+               "%s creates variables[platform] without %s: get_platform_stage_variables treats a platform without the 'stages' scope as an "
+               "inconsistency, so after this update every resolved query on the new platform raises although a fresh load of the same "
+               "description answers" % (mname, " and ".join(missing)), construct="%s: variables[platform] created with both scopes" % mname)
+    ctx.floor("C08.R11-new-platform-has-every-scope", n11, 2, "mutators that create the variables of a platform")
 
     # ---- R10: clear-then-fill ------------------------------------------------------------
     n10 = 0
